@@ -335,6 +335,26 @@ def RegAnswer.isBlocked : RegAnswer → Bool
   | .blocked => true
   | _ => false
 
+/-! ### the liveness cache under the ingest workers: calls into the LRU list
+
+`lruCache` (pkg/station/liveness/cache_lru.go) keeps a map under `lc.m` and an LRU list built with an
+eviction callback that takes `lc.m.Lock()`. `sync.RWMutex` is not re-entrant: the callback, which runs in the
+goroutine that called into the list, waits for every holder of the mutex — including that goroutine. -/
+
+/-- what the calling goroutine itself holds of `lc.m` when it calls `lc.lru.Add` / `lc.lru.Remove` -/
+inductive OwnHold | nothing | readLock | writeLock
+deriving Repr, DecidableEq
+
+/-- the eviction callback proceeds iff the goroutine running it does not hold the mutex itself (other
+holders release it eventually; the goroutine cannot release what it holds while it waits) -/
+def evictionProceeds : OwnHold → Bool
+  | .nothing => true
+  | _ => false
+
+/-- a call into the list: it returns unless it evicts / removes an entry while the caller holds the mutex -/
+def listCall (h : OwnHold) (evicts : Bool) : Outcome Unit :=
+  if evicts ∧ !evictionProceeds h then .hang else .ok ()
+
 /-- `processC2SWrapper`: nil wrapper and short secrets are errors; everything else is read through
 nil-safe getters -/
 def processC2SWrapper (wrapperPresent : Bool) (secretLen : Nat) (marshalOk : Bool) : Outcome Bool :=
